@@ -129,6 +129,48 @@ def rule_op_gates(check):
         check.expect(ok, R, R + "/empty", hir.loc(lit), "no configuration: both operators disabled", "CsiMethods::empty enables an operator")
 
 
+def rule_js_config(check):
+    """JS-CONFIG: the configuration a Rewriter is constructed with is the one its native rewriter gets"""
+    from .. import jsguards, jsflow as JF
+
+    R = "JS-CONFIG"
+    check.rule(R, "main.js: every rewriter object owns a native rewriter created by `new NativeRewriter(config)` from the constructor's own config argument at construction (no instance shared or looked up by a key derived from the configuration), and csiMethods()/rewrite() talk to that instance: the operations instrumented and the hook names are those of this rewriter's configuration")
+    prog = check.prog
+    js = jsast.JsFile(prog.js, "main.js")
+    F = jsguards.File(js)
+    news = [n for n in jsast.walk(js.program) if n.get("type") == "NewExpression" and jsast.ident_name(n["callee"]) == "NativeRewriter"]
+    check.floor(R, "constructions of the native rewriter", len(news), 1)
+    for n in news:
+        top = F.enclosing_fn(n)
+        is_ctor = top is not None and top.get("type") == "Constructor"
+        ps = F.params(top) if top is not None else []
+        a = [jsast.ident_name(x["expression"]) for x in (n.get("arguments") or [])]
+        par = F.parent(n)
+        stored = par.get("type") == "AssignmentExpression" and par["right"] is n and jsast.member_chain(par["left"]) == ["this", "nativeRewriter"]
+        if not stored and par.get("type") == "VariableDeclarator" and is_ctor:
+            v = jsast.ident_name(par["id"])
+            stored = any(x.get("type") == "AssignmentExpression" and jsast.member_chain(x["left"]) == ["this", "nativeRewriter"] and jsast.ident_name(x["right"]) == v for x in jsast.walk(top))
+        ok = is_ctor and a == ps[:1] and stored
+        check.expect(ok, R, R + "/own-instance", js.loc(n), "this.nativeRewriter = new NativeRewriter(config) in the constructor", "the native rewriter is not created by the rewriter's constructor from its own config and kept in this.nativeRewriter (created in %s with %s): rewriters can end up sharing the native instance - and the configuration - of another one" % (F.fn_name(top) or (top or {}).get("type"), a))
+    # every write of this.nativeRewriter is one of those constructions or the dummy
+    writes = [x for x in jsast.walk(js.program) if x.get("type") == "AssignmentExpression" and jsast.member_chain(x["left"]) == ["this", "nativeRewriter"]]
+    for w in writes:
+        r = JF.unparen(w["right"])
+        top = F.enclosing_fn(w)
+        if r.get("type") == "Identifier" and top is not None:
+            init = F.resolve_const(top)(r["value"])
+            r = JF.unparen(init) if init is not None else r
+        okw = r.get("type") == "NewExpression" and jsast.ident_name(r["callee"]) in ("NativeRewriter", "DummyRewriter")
+        check.expect(okw, R, R + "/write", js.loc(w), "this.nativeRewriter is a fresh instance", "this.nativeRewriter is assigned `%s`, not a freshly constructed native rewriter" % JF.text(w["right"])[:60])
+    check.floor(R, "writes of this.nativeRewriter", len(writes), 2)
+    for cname in ("NonCacheRewriter",):
+        cls = js.class_decl(cname)
+        for mname in ("csiMethods", "rewrite"):
+            m = js.method(cls, mname)
+            calls = [x for x in jsast.walk(m) if x.get("type") == "CallExpression" and jsast.member_chain(jsguards._callee(x)) == ["this", "nativeRewriter", mname]]
+            check.expect(len(calls) == 1, R, "%s/%s" % (R, mname), js.loc(m), "%s delegates to this.nativeRewriter.%s" % (mname, mname), "%s.%s does not delegate to its own native rewriter" % (cname, mname))
+
+
 def rule_method_gates(check):
     R = "METHOD-GATE"
     check.rule(R, "every method hook (ResultExpr) is built only after csi_methods.get(<source name of the called method>) returned an entry (bare calls: and allowed_without_callee); get() only returns non-operator entries whose src equals the name; the optional-chain lowering starts only for a configured method")
@@ -742,6 +784,7 @@ def rule_config_plumbing(check):
 def run(check):
     check.guarded("CONFIG-PLUMBING", rule_config_plumbing)
     check.guarded("OP-GATE", rule_op_gates)
+    check.guarded("JS-CONFIG", rule_js_config)
     check.guarded("METHOD-GATE", rule_method_gates)
     check.guarded("METHOD-GATE", rule_call_apply_name)
     check.guarded("HOOK-NAMES", rule_names)
